@@ -4,6 +4,8 @@ From Frugal Require Import Bytes Wire Skip Values Desc Spec Encode Decode Checks
 From Frugal.gen Require Import Params.
 From Frugal.proofs Require Import GenEncParams EncodeSpec RoundTrip.
 From Frugal.props Require Import Examples.
+From Frugal Require Import DisciplineChecks.
+From Frugal.proofs Require Import GenEqual.
 Import ListNotations.
 
 (* a field occurs in the encoding exactly when it is not (optional and nil) and not (optional,
@@ -43,3 +45,8 @@ Proof. split; vm_compute; reflexivity. Qed.
    for what the translator read from the sources of this run *)
 Theorem C10_side_conditions : enc_params_ok = true.
 Proof. exact enc_params_ok_holds. Qed.
+
+(* structural facts about the Go source which the hand-written model builds in (DisciplineChecks.v),
+   read from the source by the translator and re-proved on every run *)
+Theorem C10_model_assumptions : equal_ok = true.
+Proof. exact equal_ok_holds. Qed.
